@@ -27,9 +27,10 @@ GUARD = 'PLAYBACK_VERIF'
 class Violation(AssertionError):
     """Raised by an oracle when the property does not hold for a case."""
 
-    def __init__(self, message, clause=None):
+    def __init__(self, message, clause=None, case=None):
         AssertionError.__init__(self, message)
         self.clause = clause or 'oracle'
+        self.case = case    # optional: the concrete (smaller) failing sub-case to store in the replay file
 
 
 class HarnessError(Exception):
@@ -190,7 +191,7 @@ def hyp_search(ctx, strategy, body, max_examples, label='', shrink=True):
         try:
             body(case)
         except Violation as v:
-            holder['case'], holder['msg'], holder['clause'] = case, str(v), v.clause
+            holder['case'], holder['msg'], holder['clause'] = (v.case if v.case is not None else case), str(v), v.clause
             raise
         except Exception as e:  # pylint: disable=broad-except
             tb = sys.exc_info()[2]
@@ -355,7 +356,7 @@ def main(argv=None):
             for i in range(nshards):
                 part = os.path.join(work, 'part%d.json' % i)
                 procs.append((i, part, subprocess.Popen(
-                    [sys.executable, '-m', 'pbt.runner', pid, '--tier', args.tier, '--shard', str(i),
+                    [sys.executable, '-m', 'pbt.cli', pid, '--tier', args.tier, '--shard', str(i),
                      '--nshards', str(nshards), '--partial', part], cwd=VERIF)))
             ctx = Ctx(pid, args.tier, seed, 0, nshards)
             failed = []
